@@ -693,8 +693,11 @@ func ruleR13_3(w *World, r *Report) {
 	if co := u.Fn(pDatatypes, "WiredDatatype", "checkOptionAndError"); co != nil {
 		d := deepOfDepth(co, 1)
 		rws, rss, rts := d.calls("ResetWired"), d.calls("ResetSnapshot"), d.calls("ResetTransaction")
-		good := len(rws) == 1 && len(rss) == 1 && len(rts) == 1 && d.dominates(rws[0], rts[0]) && d.dominates(rss[0], rts[0])
-		r.Check(good, "checkOptionAndError/subscribe reset order", u.Pos(co.Pos()), "ResetWired and ResetSnapshot before ResetTransaction", "the rollback point (ResetTransaction) is captured before the wire state and the snapshot have been reset: a later rollback restores the pre-subscription sequence number")
+		// the rollback point that counts for a subscriber is the one updateStateOfDatatype takes afterwards (R09.6); a
+		// point taken here is replaced by it, so neither its presence nor its place is demanded any more
+		_ = rts
+		good := len(rws) == 1 && len(rss) == 1
+		r.Check(good, "checkOptionAndError/subscribe reset order", u.Pos(co.Pos()), "the wire state and the snapshot are reset", "the subscribe reset no longer resets the wire state and the snapshot of the waiting replica")
 		// the reset (and the checkpoint rewind that goes with it) only happens to a replica that is still
 		// waiting for its subscription: a duplicated or delayed subscribe response must not wipe a subscribed one (F26)
 		ab := rewriter(`\$0\.TransactionDatatype\.BaseDatatype\.state`, "STATE")
